@@ -153,7 +153,9 @@ fn semantic(case: &Case, out: &str) -> Result<(), String> {
 }
 
 fn check_xs(case: &Case) -> Verdict {
-    let outs = flavours::run_all(case, &[]);
+    // operations behind optional features exist only in the flavours built with them
+    let only: &[&str] = if matches!(case.op.as_str(), "xs.serde" | "xs.rand") { &["std_all", "nostd_rs"] } else { &[] };
+    let outs = flavours::run_all(case, only);
     let inproc = catch(|| nbcase::exec::exec(case)).map_err(|e| format!("in-process executor panicked: {}", e))?;
     let mut reference: Option<(String, String)> = None;
     for (name, r) in &outs {
@@ -161,7 +163,7 @@ fn check_xs(case: &Case) -> Verdict {
             Ok(o) => o,
             Err(e) => return Err(format!("executor flavour {} failed on this case: {}", name, e)),
         };
-        if o.starts_with("unsupported") || o.starts_with("parse-error") {
+        if o.starts_with("unsupported") || o.starts_with("parse-error") || o.starts_with("feature-off") {
             eprintln!("HARNESS-ERROR: executor {} says {}", name, o);
             std::process::exit(2);
         }
@@ -179,7 +181,7 @@ fn check_xs(case: &Case) -> Verdict {
         return Err(format!("configurations disagree: {} gives [{}] but the in-process std+all+hooks build gives [{}]", n0, trunc(&o0, 600), trunc(&inproc, 600)));
     }
     semantic(case, &o0)?;
-    let cond = matches!(case.op.as_str(), "xs.radix" | "xs.root" | "xs.float" | "xs.fromf" | "xs.parse" | "xs.fmt");
+    let cond = matches!(case.op.as_str(), "xs.radix" | "xs.root" | "xs.float" | "xs.fromf" | "xs.parse" | "xs.fmt" | "xs.serde" | "xs.rand");
     Ok(Info::new(cond).class(match case.op.as_str() {
         "xs.arith" => "arith",
         "xs.radix" => "radix (feature-conditional capacity estimates)",
@@ -193,6 +195,8 @@ fn check_xs(case: &Case) -> Verdict {
         "xs.bits" => "bit_updates_neg_inc_dec",
         "xs.bytes" => "byte_imports",
         "xs.euclid" => "euclid_ceil_egcd_multiples",
+        "xs.serde" => "serde tokens (std+all vs no_std+rand+serde)",
+        "xs.rand" => "random generation from a byte stream (std+all vs no_std+rand+serde)",
         _ => "prim",
     }))
 }
@@ -202,7 +206,7 @@ impl Property for C16 {
         "C16"
     }
     fn rule(&self) -> &'static str {
-        "Two domains. (1) Configurations, enumerated exhaustively by the driver: all 16 subsets of {rand,serde,quickcheck,arbitrary} with std and all 4 subsets of {rand,serde} without std, each in dev and release = 40 cargo builds of /repo's working tree (hooks off: the user-facing configuration); a compile error is a violation whose replay is the `build` case naming the configuration. (2) Inputs, generated: a cross-section of operations (arith, radix both directions around the capacity estimates, parsing, sqrt/cbrt/nth_root around 2^64 and 2^1024, to_f64/to_f32, from_f64, shifts/pow/bit queries, formatting flags, modpow/modinv, primitive conversions) executed by 8 executor binaries (num-bigint with std+all features, std only, no_std+rand+serde, no_std; release and debug-assertion profiles) and in-process; all nine outcomes must be byte-identical, and the outcome is additionally checked against RefInt for roots, radix text and float rounding. Non-trivial: every build case; input cases that touch a feature-conditional routine (radix, roots, floats, parsing, formatting)."
+        "Two domains. (1) Configurations, enumerated exhaustively by the driver: all 16 subsets of {rand,serde,quickcheck,arbitrary} with std and all 4 subsets of {rand,serde} without std, each in dev and release = 40 cargo builds of /repo's working tree (hooks off: the user-facing configuration); a compile error is a violation whose replay is the `build` case naming the configuration. (2) Inputs, generated: a cross-section of operations (arith, radix both directions around the capacity estimates, parsing, sqrt/cbrt/nth_root around 2^64 and 2^1024, to_f64/to_f32, from_f64, shifts/pow/bit queries, formatting flags, modpow/modinv, primitive conversions, bit updates, byte imports, Euclid/ceil/egcd, and - between the two flavours built with them and the in-process build - serde token streams and random generation from a generated byte stream) executed by 8 executor binaries (num-bigint with std+all features, std only, no_std+rand+serde, no_std; release and debug-assertion profiles) and in-process; all nine outcomes must be byte-identical, and the outcome is additionally checked against RefInt for roots, radix text and float rounding. Non-trivial: every build case; input cases that touch a feature-conditional routine (radix, roots, floats, parsing, formatting)."
     }
     fn technique(&self) -> &'static str {
         "exhaustive enumeration of the feature matrix (cargo build per configuration) + differential property-based testing (proptest) of 8 separately built executor flavours against each other and against RefInt"
@@ -259,6 +263,10 @@ impl Property for C16 {
             }),
             3 => proptest::collection::vec(prop_oneof![select(vec![0u8, 0x7f, 0x80, 0xff]), any::<u8>()], 0..24).prop_map(|b| Case::new("xs.bytes", vec![Arg::B(b)])),
             4 => (z(5), z(3)).prop_map(|(a, b)| Case::new("xs.euclid", vec![a, b])),
+            // feature-gated operations: serde tokens and random generation from a byte stream, std vs no_std builds
+            3 => (z(4), 0u128..4).prop_map(|(a, p)| Case::new("xs.serde", vec![a, Arg::U(p)])),
+            3 => (proptest::collection::vec(prop_oneof![select(vec![0u8, 0xff]), any::<u8>()], 0..40), any::<u64>(), 0u128..300, z(2), z(2))
+                .prop_map(|(p, s, n, lo, hi)| Case::new("xs.rand", vec![Arg::B(p), Arg::U(s as u128), Arg::U(n), lo, hi])),
         ]
         .boxed()
     }
